@@ -99,5 +99,20 @@ def explore(ctx):
             lines.append(dup_parked(rng, "d%d" % n)); n += 1
         for _ in range({"quick": 6, "thorough": 60, "search": 12}[tier]):
             lines.append(notifier_blocked(rng, "b%d" % n)); n += 1
+    if not ctx.get("replay"):
+        # calls through a Connection's own client over real transports: throttled first attempt(s), retried after the command
+        # backoff; the reply to the retry arrives at chosen instants around the caller's deadline
+        k = 0
+        for rep in range({"quick": 1, "thorough": 6, "search": 2}[tier]):
+            for T in (0, 200, 300):
+                for b in (50, 100):
+                    for d1 in (20, 50):
+                        start2 = d1 + b
+                        for d2 in ([30, 120] if T == 0 else [30, T - start2 + 40, T - 40, T + 60]):
+                            if d2 <= 0:
+                                continue
+                            lines.append("cc k%d timeout=%d backoff=%d cancelat=- attempts=%d:throttle,%d:ok" % (k, T, b, d1, d2)); k += 1
+                        lines.append("cc k%d timeout=%d backoff=%d cancelat=%d attempts=%d:throttle,%d:ok" % (k, T, b, start2 + 40, d1, 150)); k += 1
+                        lines.append("cc k%d timeout=%d backoff=%d cancelat=- attempts=%d:apperr" % (k, T, b, d1)); k += 1
     triples, tie = C.run_both(ctx, "TestVerifScn", lines, go_timeout=900)
     return dict(verdicts=triples, tie=tie, stats=dict(scenarios=len(lines)))
